@@ -28,7 +28,67 @@ pub struct History {
     pub seed: u64,
     pub doc: Value,
     pub ops: Vec<Op>,
+    /// every simulated client is an OS thread of its own (one of three that live as long as the
+    /// process); an operation runs on its client's thread while everybody else waits — hand-overs, no
+    /// concurrency. Whatever the system under test keeps per thread and per process now differ.
+    #[serde(default)]
+    pub threads: bool,
 }
+
+// ---------------------------------------------------------------------------------------------
+// client threads: three workers per process; `on_client_thread` runs a closure on one of them and
+// waits for it (the caller's borrow is live for exactly that long)
+
+type Job = Box<dyn FnOnce() + Send + 'static>;
+struct ClientThread {
+    jobs: std::sync::mpsc::Sender<Job>,
+    done: std::sync::mpsc::Receiver<()>,
+}
+static CLIENT_THREADS: std::sync::OnceLock<Vec<std::sync::Mutex<ClientThread>>> = std::sync::OnceLock::new();
+
+fn client_threads() -> &'static Vec<std::sync::Mutex<ClientThread>> {
+    CLIENT_THREADS.get_or_init(|| {
+        (0..3)
+            .map(|k| {
+                let (tx, rx) = std::sync::mpsc::channel::<Job>();
+                let (dtx, drx) = std::sync::mpsc::channel::<()>();
+                std::thread::Builder::new()
+                    .name(format!("client-{}", k))
+                    .stack_size(16 << 20)
+                    .spawn(move || {
+                        while let Ok(job) = rx.recv() {
+                            job();
+                            let _ = dtx.send(());
+                        }
+                    })
+                    .expect("harness: spawn client thread");
+                std::sync::Mutex::new(ClientThread { jobs: tx, done: drx })
+            })
+            .collect()
+    })
+}
+
+pub fn on_client_thread<R: Send, F: FnOnce() -> R + Send>(k: usize, f: F) -> R {
+    let mut out: Option<std::thread::Result<R>> = None;
+    {
+        let out_ref = &mut out;
+        let job: Box<dyn FnOnce() + Send + '_> = Box::new(move || {
+            *out_ref = Some(std::panic::catch_unwind(std::panic::AssertUnwindSafe(f)));
+        });
+        // the job borrows from this frame; this frame does not return before the job has run
+        let job: Job = unsafe { std::mem::transmute(job) };
+        let t = client_threads()[k % 3].lock().unwrap();
+        t.jobs.send(job).expect("harness: client thread gone");
+        t.done.recv().expect("harness: client thread died");
+    }
+    match out.expect("harness: job ran") {
+        Ok(r) => r,
+        Err(p) => std::panic::resume_unwind(p),
+    }
+}
+
+struct SendPtr<T>(*mut T);
+unsafe impl<T> Send for SendPtr<T> {}
 
 #[derive(Clone, Debug, Serialize, Deserialize)]
 pub struct Viol {
@@ -55,6 +115,8 @@ pub struct Stats {
     pub echoed_paths: u64,
     pub echoed_normalized: u64,
     pub stale_uses: u64,
+    #[serde(default)]
+    pub ops_on_client_threads: u64,
     pub name_classes: BTreeMap<String, u64>,
     pub miss_kinds: BTreeMap<String, u64>,
     pub kf_hits: BTreeMap<String, u64>,
@@ -86,6 +148,7 @@ impl Stats {
         self.echoed_paths += o.echoed_paths;
         self.echoed_normalized += o.echoed_normalized;
         self.stale_uses += o.stale_uses;
+        self.ops_on_client_threads += o.ops_on_client_threads;
     }
 }
 
@@ -334,6 +397,8 @@ pub struct Exec<'f> {
     /// known-finding matches seen (key, witness)
     pub kf_seen: Vec<(String, Viol)>,
     shape: u64,
+    /// operations run on their client's own OS thread
+    pub threads: bool,
 }
 
 pub struct StepOut {
@@ -344,7 +409,7 @@ pub struct StepOut {
 
 impl<'f> Exec<'f> {
     pub fn new(doc: &Value, findings: &'f [Finding]) -> Self {
-        Exec { doc: doc.clone(), model: doc.clone(), stats: Stats::default(), findings, kf_seen: vec![], shape: fnv(b"c09") }
+        Exec { doc: doc.clone(), model: doc.clone(), stats: Stats::default(), findings, kf_seen: vec![], shape: fnv(b"c09"), threads: false }
     }
 
     fn shape_add(&mut self, kind: u8, outcome: u8) {
@@ -502,6 +567,25 @@ impl<'f> Exec<'f> {
     /// A panic inside the library is an outcome, not a crash of the harness: for a read or a write it
     /// is a violation (the statement promises a node or None); inside a query it is not C09's business.
     pub fn step(&mut self, i: usize, op: &Op) -> StepOut {
+        if self.threads {
+            let c = match op {
+                Op::Read { c, .. } | Op::Write { c, .. } | Op::Capture { c, .. } | Op::UpdateAll { c, .. } => *c as usize,
+            };
+            let me = SendPtr(self as *mut Exec<'f>);
+            let opp = SendPtr(op as *const Op as *mut Op);
+            self.stats.ops_on_client_threads += 1;
+            return on_client_thread(c, move || {
+                let (me, opp) = (me, opp);
+                // exclusive for the duration: the caller is blocked in on_client_thread
+                let ex: &mut Exec<'f> = unsafe { &mut *me.0 };
+                let op: &Op = unsafe { &*opp.0 };
+                ex.step_here(i, op)
+            });
+        }
+        self.step_here(i, op)
+    }
+
+    fn step_here(&mut self, i: usize, op: &Op) -> StepOut {
         let r = std::panic::catch_unwind(std::panic::AssertUnwindSafe(|| self.step_inner(i, op)));
         match r {
             Ok(o) => o,
@@ -566,6 +650,7 @@ pub struct RunOut {
 /// Re-executes a literal history.
 pub fn exec_history(h: &History, findings: &[Finding]) -> (Option<Viol>, Stats, Vec<(String, Viol)>) {
     let mut ex = Exec::new(&h.doc, findings);
+    ex.threads = h.threads;
     for (i, op) in h.ops.iter().enumerate() {
         let out = ex.step(i, op);
         if out.viol.is_some() {
@@ -669,7 +754,21 @@ fn gen_query(rng: &mut Rng, model: &Value, names: &[String]) -> String {
         }
     };
     let rich_atom = |rng: &mut Rng| -> String {
-        match rng.below(8) {
+        match rng.below(10) {
+            8 | 9 => {
+                // regex functions over the node or one of its members; the pattern is a string that
+                // occurs in the document (as is: it may not be a valid pattern) or a generic one
+                let f = *rng.pick(&["match", "search"]);
+                let strs: Vec<&String> = pairs.iter().filter_map(|(_, v)| v.as_str().map(|_| ())).zip(pairs.iter()).filter_map(|(_, (_, v))| if let Value::String(t) = v { Some(t) } else { None }).collect();
+                let pat = if !strs.is_empty() && rng.chance(1, 2) { (*rng.pick(&strs)).clone() } else { (*rng.pick(&[".*", "a.*", "[a-z]+", "w.", ".", "x|y", "\\d+"])).to_string() };
+                let arg = if !pairs.is_empty() && rng.chance(2, 3) {
+                    let n = rng.pick(&pairs).0.clone();
+                    member(rng, &n)
+                } else {
+                    "@".to_string()
+                };
+                format!("{}({}, {})", f, arg, quote_single(&pat))
+            }
             0 | 1 if !pairs.is_empty() => {
                 let (n, v) = rng.pick(&pairs).clone();
                 format!("{} {} {}", member(rng, &n), rng.pick(&["==", "==", "!=", "<=", ">="]), lit(&v))
@@ -1050,6 +1149,10 @@ pub fn run(run_seed: u64, findings: &[Finding]) -> RunOut {
     let mut rng = Rng::new(run_seed);
     let doc = gen_doc(&mut rng);
     let mut ex = Exec::new(&doc, findings);
+    // one history in eight gives every client an OS thread of its own (drawn apart from the main
+    // stream, so that the histories themselves are what they were); a hand-over costs about 20 µs
+    let threads = derive(run_seed, "c09threads", 0) % 8 == 0;
+    ex.threads = threads;
     let n_clients = 1 + rng.below(3);
     let n_ops = 5 + rng.below(36);
     let mut stashes: Vec<Vec<Handle>> = (0..n_clients).map(|_| vec![]).collect();
@@ -1169,7 +1272,7 @@ pub fn run(run_seed: u64, findings: &[Finding]) -> RunOut {
         *stats.miss_kinds.entry(k).or_insert(0) += v;
     }
     let nontrivial = stale_uses > 0 && stats.writes_applied > 0;
-    RunOut { history: History { seed: run_seed, doc, ops }, viol, stats, kf_seen: ex.kf_seen, nontrivial }
+    RunOut { history: History { seed: run_seed, doc, ops, threads }, viol, stats, kf_seen: ex.kf_seen, nontrivial }
 }
 
 // ---------------------------------------------------------------------------------------------
@@ -1253,7 +1356,7 @@ pub fn minimise(h: &History, class: &str) -> History {
         progress = false;
         rounds += 1;
         for cand_doc in shrink_value_candidates(&cur.doc) {
-            let cand = History { seed: cur.seed, doc: cand_doc, ops: cur.ops.clone() };
+            let cand = History { seed: cur.seed, doc: cand_doc, ops: cur.ops.clone(), threads: cur.threads };
             if fails_same(&cand, class).is_some() {
                 cur = cand;
                 progress = true;
@@ -1589,6 +1692,7 @@ pub fn drive(tier_name: &str, seed: u64, workers: usize) -> i32 {
         "paths_echoed_by_queries": total.echoed_paths,
         "paths_echoed_that_equal_the_normalized_path": total.echoed_normalized,
         "stale_handle_uses": total.stale_uses,
+        "operations_run_on_their_clients_own_os_thread": total.ops_on_client_threads,
         "member_name_classes_on_judged_hits": total.name_classes,
         "miss_kinds_captured": total.miss_kinds,
         "known_finding_matches": total.kf_hits,
